@@ -124,7 +124,40 @@ static void pump(void) {
         if (out_len == o0 && in_off == i0 && !log_con_jqueue) break;
     }
 }
+static int trace_mode; static size_t cl_parsed;
+static uint32_t be32(const unsigned char *p) { return ((uint32_t)p[0] << 24) | ((uint32_t)p[1] << 16) | ((uint32_t)p[2] << 8) | p[3]; }
+/* generic numeric form for the RFC tracker: <c|s><type>.<flags>.<sid>.<len>.<arg>.<arg2> */
+static void print_generic(char who, const unsigned char *s) {
+    uint32_t len = ((uint32_t)s[0] << 16) | ((uint32_t)s[1] << 8) | s[2];
+    unsigned type = s[3], fl = s[4]; uint32_t sid = be32(s + 5) & 0x7fffffff; const unsigned char *p = s + 9;
+    long long arg = -1, arg2 = 0;
+    if (type == 3 && len >= 4) arg = be32(p);
+    else if (type == 7 && len >= 8) { arg2 = be32(p) & 0x7fffffff; arg = be32(p + 4); }
+    else if (type == 8 && len >= 4) arg = be32(p) & 0x7fffffff;
+    else if (type == 4 && !(fl & 1)) { for (uint32_t i = 0; i + 6 <= len; i += 6) if (((p[i] << 8) | p[i+1]) == 5) arg = be32(p + i + 2); }
+    printf(" %c%u.%x.%u.%u.%lld.%lld", who, type, fl, sid, len, arg, arg2);
+}
+static void print_client_frames(void) {
+    if (cl_parsed == 0 && in_len >= 24 && 0 == memcmp(inbuf, "PRI * HTTP/2.0", 14)) cl_parsed = 24;
+    while (in_len - cl_parsed >= 9) {
+        const unsigned char *s = (unsigned char *)inbuf + cl_parsed;
+        uint32_t len = ((uint32_t)s[0] << 16) | ((uint32_t)s[1] << 8) | s[2];
+        if (in_len - cl_parsed < 9 + (size_t)len) break;
+        print_generic('c', s);
+        cl_parsed += 9 + len;
+    }
+}
 static void print_new_frames(void) {
+    if (trace_mode) {
+        while (out_len - out_parsed >= 9) {
+            const unsigned char *s = outbuf + out_parsed;
+            uint32_t len = ((uint32_t)s[0] << 16) | ((uint32_t)s[1] << 8) | s[2];
+            if (out_len - out_parsed < 9 + (size_t)len) break;
+            print_generic('s', s);
+            out_parsed += 9 + len;
+        }
+        return;
+    }
     while (out_len - out_parsed >= 9) {
         const unsigned char *s = outbuf + out_parsed;
         uint32_t len = ((uint32_t)s[0] << 16) | ((uint32_t)s[1] << 8) | s[2];
@@ -161,10 +194,11 @@ static void new_connection(void) {
     con->is_readable = 1; con->is_writable = 1;
     buffer_copy_string_len(&con->dst_addr_buf, "127.0.0.1", 9);
     con->request.http_version = HTTP_VERSION_2;
-    in_len = in_off = 0; out_len = out_parsed = 0;
+    in_len = in_off = 0; out_len = out_parsed = 0; cl_parsed = 0;
 }
 
-int main(void) {
+int main(int argc, char **argv) {
+    trace_mode = (argc > 1 && 0 == strcmp(argv[1], "trace"));
     memset(&srv, 0, sizeof(srv));
     srv.errh = fdlog_init(NULL, -1, FDLOG_FD);
     srv.tmp_buf = buffer_init();
@@ -182,7 +216,7 @@ int main(void) {
     while (hx_read()) {
         new_connection();
         con->fn = &http_dispatch[HTTP_VERSION_2];
-        size_t cut = 0; int started = 0;
+        size_t cut = 0, gcut = 0; int started = 0;
         for (int t = 0; t < hx_ntok; ++t) {
             char *a[8]; int na = 0; char *s = hx_tok[t];
             while (na < 8) { a[na++] = s; s = strchr(s, ':'); if (!s) break; *s++ = 0; }
@@ -223,9 +257,12 @@ int main(void) {
             } else if (!strcmp(a[0], "T")) { long d = strtol(a[1], NULL, 10); log_epoch_secs += d; log_monotonic_secs += d;
                 if (con->hx) h2_dispatch_table.check_timeout(con, log_monotonic_secs);
             } else if (!strcmp(a[0], "C")) { cut = strtoul(a[1], NULL, 10); printf("%s%d:", t ? " " : "", t); continue;
+            } else if (!strcmp(a[0], "CA")) { gcut = strtoul(a[1], NULL, 10); printf("%s%d:", t ? " " : "", t); continue;
             } else if (!strcmp(a[0], ".")) {
             }
             printf("%s%d:", t ? " " : "", t);
+            if (gcut && !cut) cut = gcut;
+            if (trace_mode) print_client_frames();
             if (!con->hx && !started) {
                 if (in_len == 0) continue;
                 started = 1;
@@ -242,6 +279,7 @@ int main(void) {
             if (con->hx) pump();
             print_new_frames();
         }
+        if (trace_mode) { print_client_frames(); if (in_len > cl_parsed) printf(" cpend=%zu", in_len - cl_parsed); }
         printf(" |end rused=%d alive=%d unparsed=%zu\n", con->hx ? (int)((h2con *)con->hx)->rused : -1, con->hx ? 1 : 0, out_len - out_parsed);
         fflush(stdout);
         /* tear down */
